@@ -287,6 +287,33 @@ def enclosing_call(fn, nid, qname, max_hops=6):
     return None
 
 
+def reaches_call(fn, nid, qname, depth=0):
+    """Like enclosing_call, but also follows the value through locals that only name it (`const auto d = r.next_sint64();
+    x.update(d)`).  Returns the call node or None."""
+    c = enclosing_call(fn, nid, qname)
+    if c is not None or depth > 3:
+        return c
+    pm = fn.parent_map()
+    x = nid
+    hops = 0
+    while x in pm and hops < 8:
+        p = fn.nodes[pm[x]]
+        hops += 1
+        if p.get('k') in ('wrap', 'icast', 'cast'):
+            x = p['id']
+            continue
+        if p.get('k') == 'decl':
+            for v in p['vars']:
+                if isinstance(v.get('init'), int) and x in fn.subtree(v['init']) and local_inits(fn).get(v['d']) == v['init']:
+                    for u in fn.all_nodes():
+                        if u.get('k') == 'var' and u.get('d') == v['d']:
+                            c = reaches_call(fn, u['id'], qname, depth + 1)
+                            if c is not None:
+                                return c
+        return None
+    return None
+
+
 def _recv_root(fn, call):
     if call.get('recv') is None:
         return None
@@ -451,7 +478,7 @@ def _range_consumers(fb, fn, d, depth=0, seen=None):
             r = _recv_root(fn, c)
             if r is not None and r[0] == 'var' and r[1] == d:
                 kind = c['q'].rsplit('::', 1)[-1][len('next_'):]
-                out.append(Consumer(kind, enclosing_call(fn, c['id'], DELTA_DEC) is not None, fn, c['id']))
+                out.append(Consumer(kind, reaches_call(fn, c['id'], DELTA_DEC) is not None, fn, c['id']))
         elif c.get('args') and c.get('u'):
             for i, a in enumerate(c['args']):
                 s = fn.sn(a)
@@ -499,6 +526,17 @@ def _store_range(fb, fn, nid, case, stack):
         hops += 1
         (cf, cn) = st.pop()
         rv = _range_var_from(cf, cn)
+    # a helper that builds the range in a local and returns that local
+    hops = 0
+    while rv is not None and rv != 'return' and st and hops < 4:
+        g, d = rv[0], rv[1]
+        returned = any(n.get('k') == 'return' and 'sub' in n and (g.root_var(n['sub']) or (None, None))[:2] == ('var', d) for n in g.all_nodes())
+        if not returned or g is not fn:
+            break
+        hops += 1
+        (cf, cn) = st.pop()
+        rv = _range_var_from(cf, cn)
+        fn = cf
     if rv is not None and rv != 'return':
         case.range_var = rv
         case.packed = _range_consumers(fb, rv[0], rv[1])
